@@ -18,6 +18,12 @@ def plan(tier):
              dict(engine='e2', name='mutex_hb', tu='C07.cpp', mode='hb', scenarios=mtx, opts={'loop_bound': 3, 'rec_bound': 2}, timeout_s=900,
                   space='the C07 contention scenarios: the critical section writes plain shared cells (owner, grant counter, statistics), so mutual exclusion must be backed by happens-before',
                   bounds='2 threads; all SC interleavings', outside='as above')]
+    sto = [dict(name='mtsafe_16_16', nthreads=2, defines=['SZ1=16', 'SZ2=16']), dict(name='mtsafe_16_32', nthreads=2, defines=['SZ1=16', 'SZ2=32'])]
+    if tier != 'quick':
+        sto += [dict(name='mtsafe_32_16', nthreads=2, defines=['SZ1=32', 'SZ2=16']), dict(name='mtsafe_2rounds', nthreads=2, defines=['SZ1=16', 'SZ2=16', 'ROUNDS=2'])]
+    units.append(dict(engine='e2', name='storage_hb', tu='C19mt.cpp', mode='hb', scenarios=sto, opts={'loop_bound': 6, 'rec_bound': 2}, timeout_s=600,
+                      space='two threads each allocating a frame on one reusable_storage_mtsafe, writing and re-reading it, and releasing it (equal and different sizes; thorough: two rounds)',
+                      bounds='2 threads; all SC interleavings; happens-before as vector clocks', outside='address reuse by the heap (blocks get fresh addresses)'))
     # (b) lock discipline of the mutex-protected components (E1, -DVF_DISCIPLINE)
     L = 3 if tier == 'quick' else 4
     def hist(alpha, extra=()):
